@@ -1661,9 +1661,7 @@ class Stage:
                 else:
                     z = nan
 
-                pv = stage._method.get_p_sys(stage,k,include_signals=False)
-                if stage._method.signals:
-                    pv = ca.vertcat(ca.repmat(pv,1,refine),signals_sampled[count_blocks])
+                pv = stage._method.get_p_sys(stage,k,signal_values=[e[count_blocks] for e in v_sampled_store])
                 sub_expr.append(stage._method.eval_at_integrator(stage, expr_f(local_t.T, nan if coeff is None else mtimes(coeff,tpower), nan if coeff_q is None else mtimes(coeff_q,tpower), z, stage._method.U[k], pv, stage._method.t0, stage._method.T), k, l))
                 t0+=dt
                 count_blocks+=1
